@@ -35,6 +35,7 @@ import (
 	"go/types"
 	"os"
 	"reflect"
+	"regexp"
 	"sort"
 	"strings"
 
@@ -117,12 +118,65 @@ func resolveRenames(roots []*packages.Package, inv map[string]string) map[string
 			}
 		}
 		for g, ms := range missing {
-			if as := added[g]; len(ms) == 1 && len(as) == 1 {
+			as := added[g]
+			if len(ms) == 1 && len(as) == 1 {
 				out[as[0]] = ms[0]
+				continue
+			}
+			// several functions of one signature renamed together: pair them by name similarity when every
+			// inventory name has one clearly best partner and the pairing is one-to-one
+			if len(ms) == len(as) && len(ms) > 1 {
+				pair := map[string]string{}
+				used := map[string]bool{}
+				ok := true
+				for _, m := range ms {
+					best, second, bestA := -1.0, -1.0, ""
+					for _, a := range as {
+						sc := nameSimilarity(m[strings.LastIndex(m, ".")+1:], a[strings.LastIndex(a, ".")+1:])
+						if sc > best {
+							best, second, bestA = sc, best, a
+						} else if sc > second {
+							second = sc
+						}
+					}
+					if bestA == "" || best < 0.6 || best-second < 0.02 || used[bestA] {
+						ok = false
+						break
+					}
+					used[bestA] = true
+					pair[bestA] = m
+				}
+				if ok {
+					for a, m := range pair {
+						out[a] = m
+					}
+				}
 			}
 		}
 	}
 	return out
+}
+
+// nameSimilarity: 2*LCS/(len a + len b), in [0,1].
+func nameSimilarity(a, b string) float64 {
+	if len(a) == 0 || len(b) == 0 {
+		return 0
+	}
+	prev := make([]int, len(b)+1)
+	for i := 1; i <= len(a); i++ {
+		cur := make([]int, len(b)+1)
+		for j := 1; j <= len(b); j++ {
+			if a[i-1] == b[j-1] {
+				cur[j] = prev[j-1] + 1
+			} else if prev[j] >= cur[j-1] {
+				cur[j] = prev[j]
+			} else {
+				cur[j] = cur[j-1]
+			}
+		}
+		prev = cur
+	}
+	return 2 * float64(prev[len(b)]) / float64(len(a)+len(b))
 }
 
 // pkgOfKey: the package path of an inventory key (pkg.F or pkg.T.M; package paths contain no dot after the last slash... they may: split by known prefixes).
@@ -345,8 +399,10 @@ type pkgInliner struct {
 	H0        map[*types.Func]bool             // helpers at the start (before refusals)
 	finalBody map[*ast.FuncDecl]*ast.BlockStmt // rewritten bodies
 
-	softRefused map[string]string
-	tailReturn  bool // the call being expanded is the operand of a return statement
+	softRefused  map[string]string
+	expanded     map[*types.Func]*ast.BlockStmt  // helper -> its body with nested helper calls expanded
+	expandedDeps map[*types.Func][]*ast.FuncDecl // helpers whose code is part of an expanded body
+	tailReturn   bool                            // the call being expanded is the operand of a return statement
 
 	curDecl    *ast.FuncDecl
 	curFile    *ast.File
@@ -367,7 +423,7 @@ func normalise(roots []*packages.Package, inv map[string]string) (map[string][]b
 			continue
 		}
 		in := &pkgInliner{p: p, info: p.TypesInfo, rep: rep, decls: map[*types.Func]*ast.FuncDecl{}, fileOf: map[*ast.FuncDecl]*ast.File{},
-			H: map[*types.Func]bool{}, softRefused: map[string]string{}, cl: &cloner{orig: map[ast.Node]ast.Node{}}, addImports: map[*ast.File]map[string]string{}, compatMemo: map[[2]*ast.FuncDecl]string{}, counter: counter}
+			H: map[*types.Func]bool{}, expanded: map[*types.Func]*ast.BlockStmt{}, expandedDeps: map[*types.Func][]*ast.FuncDecl{}, softRefused: map[string]string{}, cl: &cloner{orig: map[ast.Node]ast.Node{}}, addImports: map[*ast.File]map[string]string{}, compatMemo: map[[2]*ast.FuncDecl]string{}, counter: counter}
 		edits := in.run(inv)
 		for k, v := range in.softRefused {
 			if _, ok := rep.Refused[k]; !ok {
@@ -480,6 +536,51 @@ func (in *pkgInliner) run(inv map[string]string) map[*ast.File][]fileEdit {
 		in.H0[h] = true
 	}
 	in.finalBody = map[*ast.FuncDecl]*ast.BlockStmt{}
+	// helpers first, callees before callers: a helper's body is expanded before it is itself expanded elsewhere,
+	// so that guards inside it still see plain return statements
+	var topo []*types.Func
+	state := map[*types.Func]int{}
+	var visit func(h *types.Func)
+	visit = func(h *types.Func) {
+		if state[h] != 0 {
+			return
+		}
+		state[h] = 1
+		cs := callsOf(in.decls[h])
+		sort.Slice(cs, func(i, j int) bool { return cs[i].Name() < cs[j].Name() })
+		for _, g := range cs {
+			visit(g)
+		}
+		state[h] = 2
+		topo = append(topo, h)
+	}
+	var hs []*types.Func
+	for h := range in.H {
+		hs = append(hs, h)
+	}
+	sort.Slice(hs, func(i, j int) bool { return hs[i].FullName() < hs[j].FullName() })
+	for _, h := range hs {
+		visit(h)
+	}
+	for _, h := range topo {
+		fd := in.decls[h]
+		if len(callsOf(fd)) == 0 {
+			continue
+		}
+		in.curDecl, in.curFile = fd, in.fileOf[fd]
+		in.curLocals = in.localNames(fd)
+		body := in.cl.node(fd.Body).(*ast.BlockStmt)
+		for round := 0; round < 40; round++ {
+			if !in.round(body) {
+				break
+			}
+		}
+		in.expanded[h] = body
+		for _, g := range callsOf(fd) {
+			in.expandedDeps[h] = append(in.expandedDeps[h], in.decls[g])
+			in.expandedDeps[h] = append(in.expandedDeps[h], in.expandedDeps[g]...)
+		}
+	}
 	edits := map[*ast.File][]fileEdit{}
 	for _, fd := range order {
 		obj := in.info.Defs[fd.Name].(*types.Func)
@@ -567,9 +668,9 @@ func (in *pkgInliner) inlinable(fd *ast.FuncDecl) string {
 
 // hasDefer: a helper that defers can only be expanded where its call is the operand of a return statement
 // (its deferred calls then still run when that return executes, before the caller's own).
-func hasDefer(fd *ast.FuncDecl) bool {
+func hasDefer(body *ast.BlockStmt) bool {
 	found := false
-	ast.Inspect(fd.Body, func(n ast.Node) bool {
+	ast.Inspect(body, func(n ast.Node) bool {
 		switch n.(type) {
 		case *ast.FuncLit:
 			return false
@@ -579,6 +680,16 @@ func hasDefer(fd *ast.FuncDecl) bool {
 		return !found
 	})
 	return found
+}
+
+var reSynthLabel = regexp.MustCompile(`^ret(_i\d+)+$`)
+
+// bodyOf: the body of helper fo with the helper calls inside it already expanded (helpers are processed callees first).
+func (in *pkgInliner) bodyOf(fo *types.Func) *ast.BlockStmt {
+	if b := in.expanded[fo]; b != nil {
+		return b
+	}
+	return in.decls[fo].Body
 }
 
 func (in *pkgInliner) o(n ast.Node) ast.Node {
@@ -718,6 +829,12 @@ func (in *pkgInliner) compat(callee *ast.FuncDecl) string {
 	}
 	ast.Inspect(callee.Type, visit)
 	ast.Inspect(callee.Body, visit)
+	if fo, ok := in.info.Defs[callee.Name].(*types.Func); ok {
+		for _, dep := range in.expandedDeps[fo] {
+			ast.Inspect(dep.Type, visit)
+			ast.Inspect(dep.Body, visit)
+		}
+	}
 	if res == "" && in.fileOf[callee] != in.curFile {
 		have := map[string]string{}
 		for _, spec := range in.curFile.Imports {
@@ -899,7 +1016,7 @@ func (in *pkgInliner) expandStmt(s ast.Stmt, rest []ast.Stmt) (repl []ast.Stmt, 
 					}
 				}
 				guards := in.threadable(st, fo, rest)
-				if returnInLoop(fd.Body) {
+				if returnInLoop(in.bodyOf(fo)) {
 					// a guard ending in `continue` cannot be copied to a return that sits inside a loop of the helper
 					for i, g := range guards {
 						if g.hasCont {
@@ -1266,7 +1383,7 @@ func (in *pkgInliner) inlineCall(call *ast.CallExpr, fo *types.Func, lhs []ast.E
 		delete(in.H, fo)
 		return nil
 	}
-	if hasDefer(fd) {
+	if hasDefer(in.bodyOf(fo)) {
 		if !in.tailReturn {
 			in.softRefused[key] = "defers, and is called outside a return statement"
 			return nil
@@ -1327,7 +1444,7 @@ func (in *pkgInliner) inlineCall(call *ast.CallExpr, fo *types.Func, lhs []ast.E
 
 	in.counter++
 	suf := fmt.Sprintf("_i%d", in.counter)
-	body := in.cl.node(fd.Body).(*ast.BlockStmt)
+	body := in.cl.node(in.bodyOf(fo)).(*ast.BlockStmt)
 	typ := in.cl.node(fd.Type).(*ast.FuncType)
 	var recv *ast.FieldList
 	if fd.Recv != nil {
@@ -1352,6 +1469,11 @@ func (in *pkgInliner) inlineCall(call *ast.CallExpr, fo *types.Func, lhs []ast.E
 		}
 		oid, _ := in.o(id).(*ast.Ident)
 		if oid == nil {
+			return true
+		}
+		if reSynthLabel.MatchString(id.Name) {
+			// synthesised by an earlier expansion (nested helper): labels must stay unique per function
+			id.Name += suf
 			return true
 		}
 		if tsw[oid] {
@@ -1465,6 +1587,15 @@ func (rc *retCtx) stmts(list []ast.Stmt, nn map[string]bool, top bool) []ast.Stm
 	nn = copySet(nn)
 	out := make([]ast.Stmt, 0, len(list))
 	for _, s := range list {
+		// `x, err = v, <freshly built error>` makes err known non-nil for the statements that follow
+		learned := map[string]bool{}
+		if as, ok := s.(*ast.AssignStmt); ok && len(as.Lhs) == len(as.Rhs) {
+			for i, l := range as.Lhs {
+				if id, ok := l.(*ast.Ident); ok && id.Name != "_" && rc.classify(as.Rhs[i], nn) == synNonNil {
+					learned[id.Name] = true
+				}
+			}
+		}
 		out = append(out, rc.stmt(s, nn))
 		// assignments invalidate what is known about the assigned names
 		ast.Inspect(s, func(n ast.Node) bool {
@@ -1490,6 +1621,9 @@ func (rc *retCtx) stmts(list []ast.Stmt, nn map[string]bool, top bool) []ast.Stm
 			}
 			return true
 		})
+		for n := range learned {
+			nn[n] = true
+		}
 	}
 	return out
 }
